@@ -18,6 +18,8 @@ pub fn title_sets(tier: Tier, f1: (u32, u32), f2: (u32, u32), f4: (u32, u32)) ->
         sets.push(TitleSet { name: "lexicon-titles<=3w".into(), l, titles: Titles::Words { lex: lex_strings(l), maxw: 3 }, nctx: 3, block: 300 });
         sets.push(TitleSet { name: "lexicon-titles<=2w in a crowd of 25".into(), l, titles: Titles::Words { lex: lex_strings(l), maxw: 2 }, nctx: 4, block: 20 });
         sets.push(TitleSet { name: "long words 19..36 letters".into(), l, titles: Titles::List(long_word_titles(l)), nctx: 4, block: 4 });
+        sets.push(TitleSet { name: "function-word prefix pairs: titles<=4w".into(), l, titles: Titles::Words { lex: fw_prefix_lexicon(l), maxw: tier.pick(3, 4) }, nctx: 2, block: 200 });
+        sets.push(TitleSet { name: "long texts of 30 / 60 corpus words".into(), l, titles: Titles::List(vec![long_text(30, 0), long_text(30, 500), long_text(60, 100)]), nctx: 1, block: 1 });
         let (a, b, c) = (tier.pick(f1.0, f1.1), tier.pick(f2.0, f2.1), tier.pick(f4.0, f4.1));
         sets.push(TitleSet { name: format!("F1<={}", a), l, titles: Titles::Chars { fam: fam1(l), lo: 0, hi: a }, nctx: 3, block: 500 });
         sets.push(TitleSet { name: format!("F2<={}", b), l, titles: Titles::Chars { fam: fam2(l), lo: 0, hi: b }, nctx: 2, block: 500 });
@@ -36,7 +38,12 @@ pub fn title_sets(tier: Tier, f1: (u32, u32), f2: (u32, u32), f4: (u32, u32)) ->
 
 impl C13 {
     pub fn new(tier: Tier) -> C13 {
-        C13 { sets: title_sets(tier, (6, 9), (5, 7), (6, 8)) }
+        let mut sets = title_sets(tier, (6, 9), (5, 7), (6, 8));
+        // whole-title queries of hundreds of words (more than 255 shared grams with the record)
+        for l in LANGS {
+            sets.push(TitleSet { name: "very long texts of 120 / 300 corpus words".into(), l, titles: Titles::List(vec![long_text(120, 200), long_text(300, 50)]), nctx: 1, block: 1 });
+        }
+        C13 { sets }
     }
 }
 
